@@ -27,6 +27,8 @@ type histOpts struct {
 	steps      int
 	populate   func(fs *specfs.FS)
 	adminPct   int
+	recency    int // percent: reuse the name of the previous name-taking request
+	sandwich   int // percent: wrap a mutating request in LOOKUPs of the name it affects (cache staleness probe)
 }
 
 var defaultWeights = map[string]int{"LOOKUP": 14, "CREATE": 10, "MKDIR": 8, "SYMLINK": 5, "REMOVE": 6, "RMDIR": 4, "RENAME": 6,
@@ -128,6 +130,8 @@ func genHistory(r *Rand, idx int, o histOpts) Case {
 	if odd == 0 {
 		odd = 6
 	}
+	var lastName []byte
+	var lastH uint64
 	for i := 0; i < n; i++ {
 		if o.adminPct > 0 && r.Chance(o.adminPct) {
 			switch r.Intn(3) {
@@ -141,7 +145,44 @@ func genHistory(r *Rand, idx int, o histOpts) Case {
 			continue
 		}
 		proc := pickProc(r, w)
-		s.Do(pickAdv(r), pickCred(r), genReq(r, s, proc, odd))
+		q := genReq(r, s, proc, odd)
+		if o.recency > 0 && lastName != nil && q.Name != nil && proc != "MNT" && r.Chance(o.recency) {
+			q.Name = lastName
+			if r.Chance(50) {
+				q.H = lastH
+			}
+		}
+		if q.Name != nil && proc != "MNT" {
+			lastName, lastH = q.Name, q.H
+		}
+		var ph uint64
+		var pn []byte
+		if o.sandwich > 0 && r.Chance(o.sandwich) {
+			switch proc {
+			case "CREATE", "MKDIR", "SYMLINK", "REMOVE", "RMDIR", "RENAME":
+				ph, pn = q.H, q.Name
+			case "WRITE", "SETATTR":
+				if og, ok := s.Origin[q.H]; ok {
+					ph, pn = og[0].(uint64), og[1].([]byte)
+				}
+			}
+		}
+		if pn != nil {
+			if proc == "CREATE" && r.Chance(60) {
+				// the branch that changes an existing object: UNCHECKED with a size
+				q.How = 0
+				q.Sa.Size = u64p(PickU64(r, 0, 1, 5, 10, 100))
+			}
+			s.Do(pickAdv(r), root, &nfsx.Req{Proc: "LOOKUP", H: ph, Name: pn})
+			s.Tags["sandwiches"]++
+		}
+		s.Do(pickAdv(r), pickCred(r), q)
+		if pn != nil {
+			s.Do(0, root, &nfsx.Req{Proc: "LOOKUP", H: ph, Name: pn})
+			if proc == "RENAME" {
+				s.Do(0, root, &nfsx.Req{Proc: "LOOKUP", H: q.H2, Name: q.Name2})
+			}
+		}
 	}
 	return s.Case("history", idx)
 }
